@@ -136,7 +136,10 @@ def run(ctx: core.Ctx):
             S = np.array([float(term.membership(v)) for v in xs])
             for form, arg in (("1d", X), ("2d", np.concatenate([X, X]).reshape(2, -1))):
                 try:
+                    keep = arg.copy()
                     A = np.asarray(term.membership(arg), dtype=float)
+                    if not np.array_equal(arg, keep, equal_nan=True):
+                        ctx.violation(f"{k}.membership/argument-mutated", {"k": k, "p": cases[0]["p"], "h": cases[0]["h"], "palette": palette}, "unchanged", "modified", note="the caller's array was modified in place")
                 except Exception as ex:
                     ctx.violation(f"{k}.membership/array-{form}-raises", {"k": k, "p": cases[0]["p"], "h": cases[0]["h"], "palette": palette}, "values", f"{type(ex).__name__}: {ex}")
                     continue
